@@ -1,0 +1,83 @@
+//go:build verif
+
+package atp
+
+// Contracts read by /verif/bin/govc (contract-based deductive verification; see /verif/DESIGN.md).
+// Comments only; compiled only under the build tag "verif".
+//
+// The ATP client and server are concurrent programs; these contracts decide SEQUENTIAL SLICES of C06, C07 and
+// C08 only: what each function does on its own goroutine, against data-structure invariants, a monitor
+// discipline for the client mutex, and an ownership rule for the server's workDone channel ("only run() closes
+// it, after the read loop has returned"). Interleavings are not explored.
+
+// ---------------------------------------------------------------------------------------------
+// C07: server
+// ---------------------------------------------------------------------------------------------
+
+//@ invariant atpServerSession(s): s.wg != nil && s.stdinCloser != nil && s.cborStdin != nil && s.cborStdout != nil && s.runningSteps != nil && s.workDone != nil && s.runDoneChannel != nil && s.pluginSchema != nil && s.ctx != nil
+
+// Every error queued for the closure handler carries an error value (handleClosure calls Err.Error()).
+//@ chaninvariant atpServerSession.workDone(v): v.Err != nil
+
+//@ func initializeATPServerSession(ctx, stdin, stdout, pluginSchema) -> res
+//@   requires ctx != nil && stdin != nil && stdout != nil && pluginSchema != nil
+//@   ensures res != nil && fresh(res) && res.wg != nil && res.stdinCloser != nil && res.cborStdin != nil && res.cborStdout != nil && res.runningSteps != nil && res.workDone != nil && res.runDoneChannel != nil && res.pluginSchema != nil && res.ctx != nil
+//@   ensures !closed(res.workDone) && !closed(res.runDoneChannel)
+
+// The read loop and everything it calls runs before run()'s deferred close of workDone.
+//@ func atpServerSession.run(s)
+//@   requires s != nil && !closed(s.workDone) && !closed(s.runDoneChannel)
+//@   ensures closed(s.workDone)
+//@ func atpServerSession.runATPReadLoop(s)
+//@   requires s != nil && !closed(s.workDone)
+//@   ensures !closed(s.workDone) && closed(s.runDoneChannel) == old(closed(s.runDoneChannel))
+//@   loop 1 invariant !closed(s.workDone) && closed(s.runDoneChannel) == old(closed(s.runDoneChannel))
+//@ func atpServerSession.sendInitialMessagesToClient(s) -> err
+//@   requires s != nil
+//@   ensures closed(s.workDone) == old(closed(s.workDone)) && closed(s.runDoneChannel) == old(closed(s.runDoneChannel))
+
+// Message classification: what is sent to the closure handler, and whether the loop ends.
+//@ func atpServerSession.onRuntimeMessageReceived(s, message) -> done
+//@   requires s != nil && message != nil && !closed(s.workDone)
+//@   ensures !closed(s.workDone) && closed(s.runDoneChannel) == old(closed(s.runDoneChannel))
+//@   ensures done == (old(message.MessageID) == MessageTypeClientDone)
+//@   ensures old(message.MessageID) != MessageTypeWorkStart && old(message.MessageID) != MessageTypeSignal && old(message.MessageID) != MessageTypeClientDone ==> sends(s.workDone) == old(sends(s.workDone)) + 1 && !lastsent(s.workDone).ServerFatal && !lastsent(s.workDone).StepFatal && lastsent(s.workDone).Err != nil
+//@ func atpServerSession.onRuntimeMessageReceived(s, message) -> done
+//@   ensures old(message.MessageID) == MessageTypeWorkStart && ghost("cborfail:message") > old(ghost("cborfail:message")) ==> sends(s.workDone) == old(sends(s.workDone)) + 1 && lastsent(s.workDone).StepFatal && !lastsent(s.workDone).ServerFatal && lastsent(s.workDone).RunID == old(message.RunID)
+//@   ensures old(message.MessageID) == MessageTypeSignal && ghost("cborfail:message") > old(ghost("cborfail:message")) ==> sends(s.workDone) == old(sends(s.workDone)) + 1 && !lastsent(s.workDone).StepFatal && !lastsent(s.workDone).ServerFatal && lastsent(s.workDone).RunID == old(message.RunID)
+//@ func atpServerSession.runATPReadLoop(s)
+//@   ensures ghost("cborfail:stream") > old(ghost("cborfail:stream")) ==> true
+//@ func atpServerSession.handleWorkStartMessage(s, runID, workStartMsg)
+//@   requires s != nil && !closed(s.workDone)
+//@   ensures !closed(s.workDone) && closed(s.runDoneChannel) == old(closed(s.runDoneChannel))
+//@   ensures runID == "" || workStartMsg.StepID == "" ==> sends(s.workDone) == old(sends(s.workDone)) + 1 && lastsent(s.workDone).StepFatal && !lastsent(s.workDone).ServerFatal && lastsent(s.workDone).Err != nil && ghost("spawned:atp.atpServerSession.handleWorkStartMessage$1") == old(ghost("spawned:atp.atpServerSession.handleWorkStartMessage$1"))
+//@   ensures runID != "" && workStartMsg.StepID != "" ==> sends(s.workDone) == old(sends(s.workDone)) && ghost("spawned:atp.atpServerSession.handleWorkStartMessage$1") == old(ghost("spawned:atp.atpServerSession.handleWorkStartMessage$1")) + 1 && runID in s.runningSteps && s.runningSteps[runID] == workStartMsg.StepID
+//@ func atpServerSession.handleSignalMessage(s, runID, signalMessage)
+//@   requires s != nil && !closed(s.workDone)
+//@   ensures !closed(s.workDone) && closed(s.runDoneChannel) == old(closed(s.runDoneChannel))
+//@   ensures runID == "" || !(runID in old(s.runningSteps)) ==> sends(s.workDone) == old(sends(s.workDone)) + 1 && !lastsent(s.workDone).StepFatal && !lastsent(s.workDone).ServerFatal && lastsent(s.workDone).Err != nil && ghost("spawned:atp.atpServerSession.handleSignalMessage$1") == old(ghost("spawned:atp.atpServerSession.handleSignalMessage$1"))
+
+// Goroutine bodies (closures): what they may assume about the variables they capture is checked where they are
+// spawned. None of them may assume that workDone is still open: run() closes it when the read loop ends, whatever
+// steps and signal handlers are still running.
+//@ func atpServerSession.handleWorkStartMessage$1()
+//@   requires s != nil
+//@ func atpServerSession.handleSignalMessage$1()
+//@   requires s != nil
+//@ func atpServerSession.sendRuntimeMessage$1()
+//@   requires s != nil && doneChannel != nil && !closed(doneChannel) && sends(doneChannel) == 0
+//@ func RunATPServer(ctx, stdin, stdout, pluginSchema) -> res
+//@   requires ctx != nil && stdin != nil && stdout != nil && pluginSchema != nil
+//@ func RunATPServer$1()
+//@   requires session != nil && !closed(session.workDone) && !closed(session.runDoneChannel)
+
+// A run is answered exactly once: either the work-done message is handed to the encoder, or one step-fatal error
+// for this run ID is queued - also when the step panics.
+//@ func atpServerSession.sendRuntimeMessage(s, msgID, runID, message) -> err
+//@   requires s != nil
+//@   counted
+//@   ensures sends(s.workDone) == old(sends(s.workDone)) && closed(s.workDone) == old(closed(s.workDone))
+//@ func atpServerSession.runStep(s, runID, req)
+//@   requires s != nil
+//@   ensures (ghost("calls:atp.atpServerSession.sendRuntimeMessage") - old(ghost("calls:atp.atpServerSession.sendRuntimeMessage"))) + (sends(s.workDone) - old(sends(s.workDone))) == 1
+//@   ensures sends(s.workDone) > old(sends(s.workDone)) ==> lastsent(s.workDone).RunID == runID && lastsent(s.workDone).StepFatal && !lastsent(s.workDone).ServerFatal
